@@ -158,3 +158,389 @@ Proof.
   unfold build_and. intros H. apply rbind_ok in H. destruct H as [l' [H1 H2]]. inversion H2. subst g.
   apply flatten_perm in H1. apply lvs_perm in H1. rewrite lvs_flat1 in H1. exact H1.
 Qed.
+
+(** * __eliminate_iff *)
+Lemma elim_sem s f : neval s (elim f) = eval s f.
+Proof.
+  induction f as [z|g IH|l IH|l IH|p q IHp IHq|p q IHp IHq] using fm_ind'; cbn [elim neval eval].
+  - reflexivity.
+  - now rewrite IH.
+  - rewrite forallb_map'. induction IH as [|x l Hx _ IH]; cbn; [reflexivity|]. now rewrite Hx, IH.
+  - rewrite existsb_map'. induction IH as [|x l Hx _ IH]; cbn; [reflexivity|]. now rewrite Hx, IH.
+  - cbn [existsb neval]. rewrite IHp, IHq. destruct (eval s p), (eval s q); reflexivity.
+  - cbn [forallb existsb neval]. rewrite IHp, IHq. destruct (eval s p), (eval s q); reflexivity.
+Qed.
+
+Lemma elim_leaves f : incl (nleaves (elim f)) (leaves f).
+Proof.
+  induction f as [z|g IH|l IH|l IH|p q IHp IHq|p q IHp IHq] using fm_ind'; cbn [elim nleaves leaves].
+  - apply incl_refl.
+  - exact IH.
+  - induction IH as [|x l Hx _ IH]; cbn; [apply incl_refl|]. apply incl_app; [now apply incl_appl|now apply incl_appr].
+  - induction IH as [|x l Hx _ IH]; cbn; [apply incl_refl|]. apply incl_app; [now apply incl_appl|now apply incl_appr].
+  - cbn [flat_map nleaves]. rewrite app_nil_r. apply incl_app; [now apply incl_appl|now apply incl_appr].
+  - cbn [flat_map nleaves]. rewrite !app_nil_r.
+    repeat apply incl_app; try (now apply incl_appl); now apply incl_appr.
+Qed.
+
+(** * __apply_demorgan *)
+Lemma Forall2_sem_forallb (R : nf -> nf -> Prop) s l l' :
+  Forall2 R l l' -> (forall x y, In x l -> R x y -> neval s y = neval s x) ->
+  forallb (neval s) l' = forallb (neval s) l /\ existsb (neval s) l' = existsb (neval s) l.
+Proof.
+  induction 1 as [|x y l l' Hxy _ IH]; intros H; cbn; [split; reflexivity|].
+  rewrite (H x y (or_introl eq_refl) Hxy).
+  destruct IH as [I1 I2]; [intros a b Ha; apply H; now right|]. now rewrite I1, I2.
+Qed.
+
+Lemma demorgan_sem s n : forall f g, demorgan n f = Ok g -> neval s g = neval s f.
+Proof.
+  induction n as [|n IH]; intros f g H; cbn [demorgan] in H; [discriminate|].
+  destruct f as [z|c|l|l].
+  - inversion H. reflexivity.
+  - destruct c as [z|c'|l|l].
+    + inversion H. reflexivity.
+    + apply IH in H. rewrite H. cbn [neval]. now rewrite negb_involutive.
+    + apply rbind_ok in H. destruct H as [t [H1 H2]]. apply IH in H2. rewrite H2.
+      rewrite (build_or_sem s _ _ H1). cbn [neval]. rewrite existsb_map', negb_forallb. reflexivity.
+    + apply rbind_ok in H. destruct H as [t [H1 H2]]. apply IH in H2. rewrite H2.
+      rewrite (build_and_sem s _ _ H1). cbn [neval]. rewrite forallb_map', negb_existsb. reflexivity.
+  - apply rbind_ok in H. destruct H as [l' [H1 H2]]. rewrite (build_and_sem s _ _ H2). cbn [neval].
+    apply mapM_ok in H1. apply (Forall2_sem_forallb _ s _ _ H1). intros x y _ Hxy. now apply IH.
+  - apply rbind_ok in H. destruct H as [l' [H1 H2]]. rewrite (build_or_sem s _ _ H2). cbn [neval].
+    apply mapM_ok in H1. apply (Forall2_sem_forallb _ s _ _ H1). intros x y _ Hxy. now apply IH.
+Qed.
+
+Lemma Forall2_lvs (R : nf -> nf -> Prop) l l' :
+  Forall2 R l l' -> (forall x y, R x y -> incl (nleaves y) (nleaves x)) -> incl (lvs l') (lvs l).
+Proof.
+  unfold lvs. induction 1 as [|x y l l' Hxy _ IH]; intros H; cbn; [apply incl_refl|].
+  apply incl_app; [apply incl_appl; now apply H|apply incl_appr; now apply IH].
+Qed.
+
+Lemma lvs_map_not l : lvs (map NNot l) = lvs l.
+Proof. unfold lvs. induction l; cbn; [reflexivity|]. now rewrite IHl. Qed.
+
+Lemma perm_incl {A} (l l' : list A) : Permutation l l' -> incl l' l.
+Proof. intros H x Hx. apply Permutation_sym in H. now apply (Permutation_in _ H). Qed.
+
+Lemma demorgan_leaves n : forall f g, demorgan n f = Ok g -> incl (nleaves g) (nleaves f).
+Proof.
+  induction n as [|n IH]; intros f g H; cbn [demorgan] in H; [discriminate|].
+  destruct f as [z|c|l|l].
+  - inversion H. apply incl_refl.
+  - destruct c as [z|c'|l|l].
+    + inversion H. apply incl_refl.
+    + apply IH in H. exact H.
+    + apply rbind_ok in H. destruct H as [t [H1 H2]]. apply IH in H2. apply build_or_lvs in H1.
+      rewrite lvs_map_not in H1. eapply incl_tran; [exact H2|]. now apply perm_incl.
+    + apply rbind_ok in H. destruct H as [t [H1 H2]]. apply IH in H2. apply build_and_lvs in H1.
+      rewrite lvs_map_not in H1. eapply incl_tran; [exact H2|]. now apply perm_incl.
+  - apply rbind_ok in H. destruct H as [l' [H1 H2]]. apply build_and_lvs in H2. apply mapM_ok in H1.
+    eapply incl_tran; [apply perm_incl; exact H2|]. apply (Forall2_lvs _ _ _ H1). intros x y. apply IH.
+  - apply rbind_ok in H. destruct H as [l' [H1 H2]]. apply build_or_lvs in H2. apply mapM_ok in H1.
+    eapply incl_tran; [apply perm_incl; exact H2|]. apply (Forall2_lvs _ _ _ H1). intros x y. apply IH.
+Qed.
+
+(** negation normal form: negations on leaves only *)
+Fixpoint nnf (f : nf) : bool :=
+  match f with
+  | NVar _ => true
+  | NNot (NVar _) => true
+  | NNot _ => false
+  | NAnd l => forallb nnf l
+  | NOr l => forallb nnf l
+  end.
+
+Lemma flat1_nnf cls c : nnf c = true -> forallb nnf (flat1 cls c) = true.
+Proof.
+  unfold flat1. intros H. destruct cls, c; cbn [is_and is_or input_list forallb]; try now rewrite H.
+  - exact H.
+  - exact H.
+Qed.
+
+Lemma build_nnf l : forallb nnf l = true ->
+  (forall g, build_or l = Ok g -> nnf g = true) /\ (forall g, build_and l = Ok g -> nnf g = true).
+Proof.
+  intros Hl.
+  assert (F : forall cls, forallb nnf (flat_map (flat1 cls) l) = true).
+  { intros cls. rewrite forallb_flat_map. rewrite forallb_forall in *. intros c Hc. apply flat1_nnf. now apply Hl. }
+  split; intros g H; [unfold build_or in H|unfold build_and in H];
+    apply rbind_ok in H; destruct H as [l' [H1 H2]]; inversion H2; subst g;
+    apply flatten_perm in H1; cbn [nnf]; rewrite <- (forallb_perm _ _ _ H1); apply F.
+Qed.
+
+Lemma Forall2_forallb (R : nf -> nf -> Prop) (p : nf -> bool) l l' :
+  Forall2 R l l' -> (forall x y, R x y -> p y = true) -> forallb p l' = true.
+Proof.
+  induction 1 as [|x y l l' Hxy _ IH]; intros H; cbn; [reflexivity|].
+  rewrite (H x y Hxy). now apply IH.
+Qed.
+
+Lemma demorgan_nnf n : forall f g, demorgan n f = Ok g -> nnf g = true.
+Proof.
+  induction n as [|n IH]; intros f g H; cbn [demorgan] in H; [discriminate|].
+  destruct f as [z|c|l|l].
+  - inversion H. reflexivity.
+  - destruct c as [z|c'|l|l].
+    + inversion H. reflexivity.
+    + now apply IH in H.
+    + apply rbind_ok in H. destruct H as [t [_ H2]]. now apply IH in H2.
+    + apply rbind_ok in H. destruct H as [t [_ H2]]. now apply IH in H2.
+  - apply rbind_ok in H. destruct H as [l' [H1 H2]]. apply mapM_ok in H1.
+    apply (proj2 (build_nnf l' (Forall2_forallb _ nnf _ _ H1 (fun x y => IH x y))) g H2).
+  - apply rbind_ok in H. destruct H as [l' [H1 H2]]. apply mapM_ok in H1.
+    apply (proj1 (build_nnf l' (Forall2_forallb _ nnf _ _ H1 (fun x y => IH x y))) g H2).
+Qed.
+
+(** * __distribute_ors_naive *)
+Lemma dist_naive_and l : dist_naive (NAnd l) = (l' <- mapM dist_naive l ;; build_and l').
+Proof.
+  cbn [dist_naive].
+  match goal with |- rbind (?g l) _ = _ => assert (E : forall l, g l = mapM dist_naive l) end.
+  { clear. induction l as [|a l IH]; [reflexivity|]. cbn [mapM]. now rewrite IH. }
+  now rewrite E.
+Qed.
+
+Lemma dist_naive_or l :
+  dist_naive (NOr l) =
+  (cl <- mapM dist_naive l ;; ors <- mapM build_or (cprod (map get_list_for_crossing cl)) ;; build_and ors).
+Proof.
+  cbn [dist_naive].
+  match goal with |- rbind (?g l) _ = _ => assert (E : forall l, g l = mapM dist_naive l) end.
+  { clear. induction l as [|a l IH]; [reflexivity|]. cbn [mapM]. now rewrite IH. }
+  now rewrite E.
+Qed.
+
+Lemma build_and_shape l g : build_and l = Ok g -> exists m, g = NAnd m.
+Proof. unfold build_and. intros H. apply rbind_ok in H. destruct H as [m [_ H]]. inversion H. eauto. Qed.
+
+Lemma build_or_shape l g : build_or l = Ok g -> exists m, g = NOr m.
+Proof. unfold build_or. intros H. apply rbind_ok in H. destruct H as [m [_ H]]. inversion H. eauto. Qed.
+
+Lemma dist_not_or f g : dist_naive f = Ok g -> is_or g = false.
+Proof.
+  destruct f as [z|c|l|l].
+  - intros H. inversion H. reflexivity.
+  - intros H. inversion H. reflexivity.
+  - rewrite dist_naive_and. intros H. apply rbind_ok in H. destruct H as [l' [_ H]].
+    apply build_and_shape in H. destruct H as [m ->]. reflexivity.
+  - rewrite dist_naive_or. intros H. apply rbind_ok in H. destruct H as [l' [_ H]].
+    apply rbind_ok in H. destruct H as [ors [_ H]].
+    apply build_and_shape in H. destruct H as [m ->]. reflexivity.
+Qed.
+
+Lemma forallb_orb_l {A} (q : A -> bool) b L : forallb (fun t => b || q t) L = b || forallb q L.
+Proof. induction L; cbn; [now rewrite orb_true_r|]. rewrite IHL. destruct b; reflexivity. Qed.
+
+Lemma forallb_orb_r {A} (p : A -> bool) R l : forallb (fun x => p x || R) l = forallb p l || R.
+Proof. induction l; cbn; [reflexivity|]. rewrite IHl. destruct (p a), R; cbn; try reflexivity. now rewrite orb_true_r. Qed.
+
+(** distribution of a disjunction of conjunctions *)
+Lemma cprod_sem {A} (p : A -> bool) (ls : list (list A)) :
+  forallb (existsb p) (cprod ls) = existsb (forallb p) ls.
+Proof.
+  induction ls as [|l ls IH]; [reflexivity|]. cbn [cprod existsb].
+  rewrite forallb_flat_map.
+  rewrite (forallb_ext' _ (fun x => p x || existsb (forallb p) ls)).
+  - apply forallb_orb_r.
+  - intros x. rewrite forallb_map'. cbn [existsb]. rewrite forallb_orb_l. now rewrite IH.
+Qed.
+
+Lemma glfc_sem s c : is_or c = false -> forallb (neval s) (get_list_for_crossing c) = neval s c.
+Proof. destruct c; cbn; intros H; try discriminate; try now rewrite andb_true_r. reflexivity. Qed.
+
+Lemma Forall2_build_or_sem s L ors :
+  Forall2 (fun x y => build_or x = Ok y) L ors ->
+  forallb (neval s) ors = forallb (existsb (neval s)) L.
+Proof.
+  induction 1 as [|x y L ors Hxy _ IH]; cbn; [reflexivity|]. now rewrite (build_or_sem s _ _ Hxy), IH.
+Qed.
+
+Lemma dist_sem s f : forall g, dist_naive f = Ok g -> neval s g = neval s f.
+Proof.
+  induction f as [z|c IH|l IH|l IH] using nf_ind'; intros g H.
+  - inversion H. reflexivity.
+  - inversion H. reflexivity.
+  - rewrite dist_naive_and in H. apply rbind_ok in H. destruct H as [l' [H1 H2]].
+    rewrite (build_and_sem s _ _ H2). cbn [neval]. apply mapM_ok in H1.
+    apply (Forall2_sem_forallb _ s _ _ H1). intros x y Hx Hxy.
+    rewrite Forall_forall in IH. now apply IH.
+  - rewrite dist_naive_or in H. apply rbind_ok in H. destruct H as [cl [H1 H]].
+    apply rbind_ok in H. destruct H as [ors [H2 H3]].
+    rewrite (build_and_sem s _ _ H3). apply mapM_ok in H1. apply mapM_ok in H2.
+    rewrite (Forall2_build_or_sem s _ _ H2), cprod_sem. cbn [neval].
+    rewrite existsb_map'.
+    assert (E : existsb (fun x => forallb (neval s) (get_list_for_crossing x)) cl = existsb (neval s) cl).
+    { clear H2 H3. induction H1 as [|x y l cl Hxy _ IH']; [reflexivity|]. cbn [existsb].
+      rewrite (glfc_sem s y (dist_not_or _ _ Hxy)). f_equal. apply IH'. now inversion IH. }
+    rewrite E. apply (Forall2_sem_forallb _ s _ _ H1). intros x y Hx Hxy.
+    rewrite Forall_forall in IH. now apply IH.
+Qed.
+
+(** leaves of the distributed formula *)
+Lemma cprod_in {A} (ls : list (list A)) t x :
+  In t (cprod ls) -> In x t -> exists l, In l ls /\ In x l.
+Proof.
+  revert t. induction ls as [|l ls IH]; intros t Ht Hx; cbn [cprod] in Ht.
+  - destruct Ht as [<-|[]]. destruct Hx.
+  - apply in_flat_map in Ht. destruct Ht as [y [Hy Ht]]. apply in_map_iff in Ht. destruct Ht as [t' [<- Ht']].
+    destruct Hx as [<-|Hx].
+    + exists l. split; [now left|assumption].
+    + destruct (IH t' Ht' Hx) as [l' [X Y]]. exists l'. split; [now right|assumption].
+Qed.
+
+Lemma glfc_lvs c : lvs (get_list_for_crossing c) = nleaves c.
+Proof. unfold lvs. destruct c; cbn; now rewrite ?app_nil_r. Qed.
+
+Lemma lvs_in l z : In z (lvs l) <-> exists c, In c l /\ In z (nleaves c).
+Proof. unfold lvs. apply in_flat_map. Qed.
+
+Lemma Forall2_in_r {A B} (R : A -> B -> Prop) l l' y :
+  Forall2 R l l' -> In y l' -> exists x, In x l /\ R x y.
+Proof.
+  induction 1 as [|a b l l' Hab _ IH]; intros Hy; [destruct Hy|].
+  destruct Hy as [<-|Hy]; [exists a; split; [now left|assumption]|].
+  destruct (IH Hy) as [x [X Y]]. exists x. split; [now right|assumption].
+Qed.
+
+Lemma dist_leaves f : forall g, dist_naive f = Ok g -> incl (nleaves g) (nleaves f).
+Proof.
+  induction f as [z|c IH|l IH|l IH] using nf_ind'; intros g H.
+  - inversion H. apply incl_refl.
+  - inversion H. apply incl_refl.
+  - rewrite dist_naive_and in H. apply rbind_ok in H. destruct H as [l' [H1 H2]].
+    apply build_and_lvs in H2. apply mapM_ok in H1.
+    eapply incl_tran; [apply perm_incl; exact H2|].
+    assert (G : forall x y, In x l -> dist_naive x = Ok y -> incl (nleaves y) (nleaves x)).
+    { rewrite Forall_forall in IH. intros x y Hx. now apply IH. }
+    clear IH H2. unfold lvs. cbn [nleaves]. induction H1 as [|x y l l' Hxy _ IH']; cbn; [apply incl_refl|].
+    apply incl_app; [apply incl_appl; apply (G x y); [now left|assumption]|apply incl_appr; apply IH'].
+    intros a b Ha. apply G. now right.
+  - rewrite dist_naive_or in H. apply rbind_ok in H. destruct H as [cl [H1 H]].
+    apply rbind_ok in H. destruct H as [ors [H2 H3]].
+    apply build_and_lvs in H3. apply mapM_ok in H1. apply mapM_ok in H2.
+    eapply incl_tran; [apply perm_incl; exact H3|].
+    assert (G : forall x y, In x l -> dist_naive x = Ok y -> incl (nleaves y) (nleaves x)).
+    { rewrite Forall_forall in IH. intros x y Hx. now apply IH. }
+    assert (C : incl (lvs cl) (lvs l)).
+    { clear IH H2 H3. unfold lvs. induction H1 as [|x y l cl Hxy _ IH']; cbn; [apply incl_refl|].
+      apply incl_app; [apply incl_appl; apply (G x y); [now left|assumption]|apply incl_appr; apply IH'].
+      intros a b Ha. apply G. now right. }
+    cbn [nleaves]. fold (lvs l). eapply incl_tran; [|exact C].
+    intros z Hz. apply lvs_in in Hz. destruct Hz as [o [Ho Hz]].
+    destruct (Forall2_in_r _ _ _ _ H2 Ho) as [t [Ht Hb]].
+    apply build_or_lvs in Hb. apply (Permutation_in _ (Permutation_sym Hb)) in Hz.
+    apply lvs_in in Hz. destruct Hz as [c [Hc Hz]].
+    destruct (cprod_in _ _ _ Ht Hc) as [lst [Hl Hcl]]. apply in_map_iff in Hl. destruct Hl as [d [<- Hd]].
+    apply lvs_in. exists d. split; [assumption|]. rewrite <- glfc_lvs. apply lvs_in. eauto.
+Qed.
+
+(** * CNF shape *)
+Definition is_lit (f : nf) : bool :=
+  match f with NVar _ => true | NNot (NVar _) => true | _ => false end.
+Definition is_clause (f : nf) : bool :=
+  is_lit f || match f with NOr l => forallb is_lit l | _ => false end.
+Definition is_cnf (f : nf) : bool :=
+  match f with NAnd l => forallb is_clause l | _ => false end.
+Definition lit_or_cnf (f : nf) : bool := is_lit f || is_cnf f.
+
+Lemma is_clause_cases c : is_clause c = true ->
+  (is_lit c = true /\ is_and c = false /\ is_or c = false) \/ (exists m, c = NOr m /\ forallb is_lit m = true).
+Proof.
+  unfold is_clause. destruct c as [z|[z|?|?|?]|l|l]; cbn; intros H; try discriminate; eauto.
+Qed.
+
+Lemma build_and_cnf l g :
+  (forall c, In c l -> lit_or_cnf c = true) -> build_and l = Ok g -> is_cnf g = true.
+Proof.
+  intros Hl H. unfold build_and in H. apply rbind_ok in H. destruct H as [l' [H1 H2]]. inversion H2. subst g.
+  apply flatten_perm in H1. cbn [is_cnf]. rewrite <- (forallb_perm _ _ _ H1), forallb_flat_map.
+  apply forallb_forall. intros c Hc. specialize (Hl c Hc). unfold lit_or_cnf in Hl. unfold flat1.
+  destruct c as [z|[z|?|?|?]|m|m]; cbn in *; try discriminate; try reflexivity. exact Hl.
+Qed.
+
+Lemma build_or_clause l g :
+  (forall c, In c l -> is_clause c = true) -> build_or l = Ok g -> is_clause g = true /\ is_and g = false.
+Proof.
+  intros Hl H. unfold build_or in H. apply rbind_ok in H. destruct H as [l' [H1 H2]]. inversion H2. subst g.
+  apply flatten_perm in H1. split; [|reflexivity]. unfold is_clause. cbn [is_lit orb].
+  rewrite <- (forallb_perm _ _ _ H1), forallb_flat_map.
+  apply forallb_forall. intros c Hc. specialize (Hl c Hc). unfold flat1.
+  destruct (is_clause_cases c Hl) as [[A [B C]]|[m [-> Hm]]].
+  - rewrite C. cbn. now rewrite A.
+  - cbn. exact Hm.
+Qed.
+
+Lemma build_and_clauses l g :
+  (forall c, In c l -> is_clause c = true /\ is_and c = false) -> build_and l = Ok g -> is_cnf g = true.
+Proof.
+  intros Hl H. unfold build_and in H. apply rbind_ok in H. destruct H as [l' [H1 H2]]. inversion H2. subst g.
+  apply flatten_perm in H1. cbn [is_cnf]. rewrite <- (forallb_perm _ _ _ H1), forallb_flat_map.
+  apply forallb_forall. intros c Hc. destruct (Hl c Hc) as [A B]. unfold flat1. rewrite B. cbn. now rewrite A.
+Qed.
+
+Lemma glfc_clauses d x :
+  lit_or_cnf d = true -> In x (get_list_for_crossing d) -> is_clause x = true.
+Proof.
+  unfold lit_or_cnf. destruct d as [z|[z|?|?|?]|m|m]; cbn; intros H Hx; try discriminate.
+  - destruct Hx as [<-|[]]. reflexivity.
+  - destruct Hx as [<-|[]]. reflexivity.
+  - rewrite forallb_forall in H. now apply H.
+Qed.
+
+Lemma dist_shape f : forall g, nnf f = true -> dist_naive f = Ok g -> lit_or_cnf g = true.
+Proof.
+  induction f as [z|c IH|l IH|l IH] using nf_ind'; intros g N H.
+  - inversion H. reflexivity.
+  - inversion H. subst g. destruct c; cbn in N; try discriminate. reflexivity.
+  - rewrite dist_naive_and in H. apply rbind_ok in H. destruct H as [l' [H1 H2]]. apply mapM_ok in H1.
+    unfold lit_or_cnf. rewrite (build_and_cnf l' g); [now rewrite orb_true_r| |assumption].
+    intros c Hc. destruct (Forall2_in_r _ _ _ _ H1 Hc) as [x [Hx Hxc]].
+    rewrite Forall_forall in IH. apply (IH x Hx); [|assumption].
+    cbn [nnf] in N. rewrite forallb_forall in N. now apply N.
+  - rewrite dist_naive_or in H. apply rbind_ok in H. destruct H as [cl [H1 H]].
+    apply rbind_ok in H. destruct H as [ors [H2 H3]]. apply mapM_ok in H1. apply mapM_ok in H2.
+    unfold lit_or_cnf. rewrite (build_and_clauses ors g); [now rewrite orb_true_r| |assumption].
+    intros o Ho. destruct (Forall2_in_r _ _ _ _ H2 Ho) as [t [Ht Hb]].
+    apply (build_or_clause t o); [|assumption].
+    intros c Hc. destruct (cprod_in _ _ _ Ht Hc) as [lst [Hl Hcl]].
+    apply in_map_iff in Hl. destruct Hl as [d [<- Hd]]. apply (glfc_clauses d); [|assumption].
+    destruct (Forall2_in_r _ _ _ _ H1 Hd) as [x [Hx Hxd]].
+    rewrite Forall_forall in IH. apply (IH x Hx); [|assumption].
+    cbn [nnf] in N. rewrite forallb_forall in N. now apply N.
+Qed.
+
+(** * to_cnf_naive *)
+Lemma wrap_and_sem s g : neval s (wrap_and g) = neval s g.
+Proof. destruct g; cbn; try now rewrite andb_true_r. reflexivity. Qed.
+
+Lemma wrap_and_leaves g : nleaves (wrap_and g) = nleaves g.
+Proof. destruct g; cbn; rewrite ?app_nil_r; reflexivity. Qed.
+
+Lemma wrap_and_cnf g : lit_or_cnf g = true -> is_cnf (wrap_and g) = true.
+Proof.
+  unfold lit_or_cnf. destruct g as [z|[z|?|?|?]|m|m]; cbn; intros H; try discriminate; try reflexivity. exact H.
+Qed.
+
+Theorem naive_correct f nv g nv' :
+  to_cnf_naive f nv = Ok (g, nv') ->
+  nv' = nv /\
+  (forall s, neval s g = eval s f) /\
+  incl (nleaves g) (leaves f) /\
+  is_cnf g = true.
+Proof.
+  unfold to_cnf_naive. intros H. apply rbind_ok in H. destruct H as [g1 [H1 H]].
+  apply rbind_ok in H. destruct H as [g2 [H2 H3]]. inversion H3. subst g nv'. clear H3.
+  split; [reflexivity|]. split; [|split].
+  - intros s. rewrite wrap_and_sem, (dist_sem s _ _ H2), (demorgan_sem s _ _ _ H1). apply elim_sem.
+  - rewrite wrap_and_leaves. eapply incl_tran; [apply (dist_leaves _ _ H2)|].
+    eapply incl_tran; [apply (demorgan_leaves _ _ _ H1)|]. apply elim_leaves.
+  - apply wrap_and_cnf. apply (dist_shape g1); [|assumption]. apply (demorgan_nnf _ _ _ H1).
+Qed.
+
+(** The conversion is not total: the sort inside [__apply_demorgan] compares
+    keys that are not ints (Python: TypeError). *)
+Lemma naive_not_total :
+  exists f nv, to_cnf_naive f nv = Err ETypeError.
+Proof. exists (FNot (FIf (FVar 1) (FVar 2))), 3. vm_compute. reflexivity. Qed.
